@@ -25,6 +25,7 @@ def run(prog, chk):
     C.iterator_param_alias(prog, chk, "C03.d", SEQ)
     index_guard(prog, chk, "C03.e")
     C.wrappers(prog, chk, "C03.w", ("List", "PoolList"))
+    C.lockstep_equality(prog, chk, "C03.g", ("List",))
     C.self_assign(prog, chk, "C03.f", ("List", "Array"))
 
 
